@@ -18,6 +18,7 @@ import shutil
 import struct
 import subprocess
 import tempfile
+import time
 
 import casadi as ca
 import numpy as np
@@ -379,9 +380,46 @@ def explore_sequence(case):
                 res.fail(site=setname + ".generate_code", clause="output_depends_only_on_this_calls_options", cls="sequence",
                          detail=dict(previous=[dict(o) for o in w], differing_files=diff[:6]), sub="seq", case=case)
             shutil.rmtree(os.path.join(tmp, "w%d" % k), ignore_errors=True)
+        # the same destination directory used again: whatever an earlier call left there (other options, a subset of the functions),
+        # a default call must leave exactly what it leaves in an empty directory
+        firsts = [("options", E, o) for o in opt_list]
+        if E["kind"] == "single":
+            (nm, fns), = E["sets"].items()
+            names = sorted(fns)
+            for tag, keep in (("first_half", names[:max(1, len(names) // 2)]), ("last_two", names[-2:])):
+                firsts.append((tag, dict(E, sets={nm: {n: fns[n] for n in keep}}), {}))
+        else:
+            names = sorted(E["sets"])
+            if len(names) > 1:
+                firsts.append(("first_set_only", dict(E, sets={names[0]: E["sets"][names[0]]}), {}))
+                firsts.append(("last_set_only", dict(E, sets={names[-1]: E["sets"][names[-1]]}), {}))
+        for tag, E1, o in firsts:
+            res.count("evaluations")
+            res.count("programs")
+            res.count("same_directory_sequences")
+            res.nontrivial.add(hash((setname, "samedir", tag, json_key((o,)))))
+            k += 1
+            d = os.path.join(tmp, "w%d" % k)
+            try:
+                _generate(E1, d, o)
+            except Exception:
+                pass  # judged by the per-configuration sub-check
+            time.sleep(0.02)
+            try:
+                again = _generate(E, d, {})
+            except Exception as ex:
+                res.fail(site=setname + ".generate_code", clause="default_call_after_other_calls_succeeds", cls="same_directory",
+                         detail=dict(first=tag, options=dict(o), error=str(ex)[:300]), sub="seq", case=case)
+                continue
+            extra = sorted(set(again) - set(base))
+            diff = [f for f in base if again.get(f) != base[f]]
+            if diff:
+                res.fail(site=setname + ".generate_code", clause="output_depends_only_on_this_calls_options", cls="same_directory",
+                         detail=dict(first=tag, options=dict(o), differing_files=diff[:6], leftover_files=extra[:6]), sub="seq", case=case)
+            shutil.rmtree(d, ignore_errors=True)
     finally:
         shutil.rmtree(tmp, ignore_errors=True)
-    res.samples.append(dict(set=setname, sequences=len(words)))
+    res.samples.append(dict(set=setname, sequences=len(words), same_directory_sequences=len(firsts)))
     return res
 
 
